@@ -97,7 +97,7 @@ fn c55_quoting_empty() {
 // one arbitrary scalar value (any plane) in front of / behind ASCII: never panics, and a
 // non-ASCII letter-like first char is only accepted if it is alphabetic and not uppercase
 #[kani::proof]
-#[kani::unwind(8)]
+#[kani::unwind(40)]
 fn c55_quoting_non_ascii_head() {
     let c: char = kani::any();
     kani::assume((c as u32) >= 128 && (c as u32) < 0x250); // Latin-1 sup., Latin ext. A/B
